@@ -50,7 +50,7 @@ def judge(ctx, trace, cases_path):
     ctx.extra["outcome_classes"] = classes
     ctx.extra["impl_layer_drift"] = len(drift)
     if classes.get("unconfirmed"):
-        ctx.notes.append("%d cases that overran under parallel load were not re-run alone (their signature already had three confirmation runs); no verdict was drawn from them" % classes["unconfirmed"])
+        ctx.notes.append("%d cases that overran under parallel load were not re-run alone (their signature had overrun three times, or already had a confirmation run); no verdict was drawn from them" % classes["unconfirmed"])
     for line in drift[:3]:
         e = events[line - 1]
         ctx.notes.append("MODEL-DRIFT: Hostile.tla says %s.%s=%s is rejected at once, the code allocated %d KiB (%s)" % (e["rec"], e["fld"], e["mag"], e["allocKiB"], e["ep"]))
